@@ -164,6 +164,10 @@ class Property(cssutils.util.Base):
                     self.wellformed = True
                     self.name = nametokens
                     self.propertyValue = valuetokens
+                    # the new text has its own priority (or none): a
+                    # priority which is not accepted leaves none
+                    self._priority = self._literalpriority = ''
+                    self.seqs[2] = []
                     self.priority = prioritytokens
                 except Exception:
                     (
